@@ -33,6 +33,9 @@ Proof.
   inversion Hl; subst. destruct n; cbn [set_nth]; constructor; auto.
 Qed.
 
+Lemma Next_inj a b : Next a = Next b -> a = b.
+Proof. congruence. Qed.
+
 Ltac inv_words :=
   repeat match goal with
          | H : Forall word (_ :: _) |- _ => inversion H; clear H; subst
@@ -69,12 +72,12 @@ Section Refine.
       try (lazymatch goal with
            | |- context [set_nth] =>
                destruct (s_stk st) as [|t r] eqn:Es; intros E; [discriminate|];
-               injection E as E'; rewrite <- E'; cbn [s_stk upd];
+               apply Next_inj in E; rewrite <- E; cbn [s_stk upd];
                apply set_nth_words; [constructor; [apply znth_word; assumption|inv_words; assumption]|inv_words; assumption]
            end; fail 1);
       try (destruct (s_stk st) as [|a [|b [|d r]]] eqn:Es);
       repeat match goal with |- context [if ?b then _ else _] => destruct b end;
-      intros E; try discriminate; injection E as E'; rewrite <- E'; cbn [s_stk upd]; inv_words;
+      intros E; try discriminate; apply Next_inj in E; rewrite <- E; cbn [s_stk upd]; inv_words;
       repeat first [assumption | apply wpush_words | constructor | apply znth_word | rewrite Es ].
   Qed.
 
@@ -90,8 +93,9 @@ Section Refine.
     destruct k; try reflexivity;
       repeat match goal with
              | |- context [match ?x with _ => _ end] =>
-                 match x with
-                 | exec _ _ _ _ _ _ _ => fail 1
+                 lazymatch x with
+                 | exec _ _ _ _ _ _ _ => fail
+                 | context [match _ with _ => _ end] => fail
                  | _ => destruct x
                  end
              end; try reflexivity; apply exec_refine; cbn [s_stk]; assumption.
@@ -104,8 +108,9 @@ Section Refine.
     set (k := decode _) in H.
     repeat match type of H with
            | context [match ?x with _ => _ end] =>
-               match x with
-               | exec _ _ _ _ _ _ _ => fail 1
+               lazymatch x with
+               | exec _ _ _ _ _ _ _ => fail
+               | context [match _ with _ => _ end] => fail
                | _ => destruct x
                end
            end; try discriminate;
@@ -121,10 +126,20 @@ Section Refine.
     apply IH. eapply step_words; eassumption.
   Qed.
 
-  Theorem machine_refines fuel gas :
-    call impl_op valid_jumpdest P c input fuel gas = call spec_op jd2 P c input fuel gas.
-  Proof.
-    unfold call. destruct c eqn:E; [reflexivity|]. rewrite <- E. apply run_refine. constructor.
-  Qed.
-
 End Refine.
+
+Theorem machine_refines jd2 P c input :
+  clen c <= U64 ->
+  (forall d, 0 <= d -> (jd2 c d = true <-> d < clen c /\ cnth c d = 91 /\ boundary c d)) ->
+  forall fuel gas,
+    call impl_op valid_jumpdest P c input fuel gas = call spec_op jd2 P c input fuel gas.
+Proof.
+  intros Hlen Hjd fuel gas. unfold call.
+  destruct c eqn:E; [reflexivity|]. rewrite <- E in *.
+  apply run_refine; [assumption|assumption|constructor].
+Qed.
+
+(* the specification run keeps every stack slot a 256-bit word (the invariant used above) *)
+Theorem spec_step_keeps_words jd2 P c input st st' :
+  Forall word (s_stk st) -> step spec_op jd2 P c input st = Next st' -> Forall word (s_stk st').
+Proof. apply step_words. Qed.
